@@ -59,6 +59,11 @@ theorem call_members (st : State) (pc : Pc) (h2 : ∀ s g as, pc ≠ .leave s g 
   | demonitor g b =>
     exact members_of_trans (trans_demonitor st g b) (by simp [demonitorEff]) (by simp [demonitorEff]) k x
   | demonitorScope s b => exact Iff.rfl
+  | demonitorCall g b => exact Iff.rfl
+  | demonitorScopeCall s b => exact Iff.rfl
+  | demonitorFwd g b =>
+    exact members_of_trans (trans_demonitorFwd st g b) (by simp [demFwdEff]) (by simp [demFwdEff]) k x
+  | demonitorScopeFwd s b => exact Iff.rfl
   | done => exact Iff.rfl
 
 /-- the linearised operation of an exit region that is taken -/
